@@ -143,6 +143,8 @@ pub struct RunCfg {
     pub workers: usize,
     pub scenarios: Option<u64>,
     pub write_evidence: bool,
+    /// run only this scenario index (debugging)
+    pub only: Option<u64>,
 }
 
 pub fn scratch_dir() -> PathBuf {
@@ -177,6 +179,12 @@ pub fn pool(check: &dyn Check, cfg: &RunCfg, total: u64, scratch: &Path) -> (Vec
             let mut w = Work::new(scratch, wi);
             let mut n = wi as u64;
             while n < total {
+                if let Some(o) = cfg.only {
+                    if n != o {
+                        n += cfg.workers as u64;
+                        continue;
+                    }
+                }
                 let rep = check.run_scenario(&mut w, cfg.seed, n, cfg.tier);
                 let mut line = serde_json::to_vec(&rep).unwrap_or_default();
                 line.push(b'\n');
@@ -185,7 +193,7 @@ pub fn pool(check: &dyn Check, cfg: &RunCfg, total: u64, scratch: &Path) -> (Vec
                 }
                 n += cfg.workers as u64;
             }
-            let fin = json!({"worker_done": wi, "execs": w.execs, "exec_wall_ms": w.exec_wall.as_millis() as u64});
+            let fin = json!({"worker_done": wi, "execs": w.execs, "exec_wall_ms": w.exec_wall.as_millis() as u64, "stall_retries": w.stall_retries});
             let _ = out.write_all(format!("{}\n", fin).as_bytes());
             drop(w);
             unsafe { libc::_exit(0) };
